@@ -25,10 +25,61 @@ META = dict(
     property_id="C09", engine="tlc-ielayout",
     technique="TLC checks the layout semantics (GetField/SetField over the frozen table of all 742 accessor pairs, 737 of them from the source annotations) exhaustively per field shape; TLC-generated (prior, value) cases and seeded random cases are executed on every real accessor pair by reflection and every observation (getter before, Iei/Len/all octets and getter after) is validated by TLC; all 256 priors x values of every bit field by digest conformance",
     level=("model_checking", "The specification is a table of documented bit positions plus reference accessors; TLC enumerates, for every type and field, the boundary priors (all 0/1, 0x55/0xAA, walking bits, seeded) and values and checks round trip, non-interference and locality, and exhaustively all one-octet field shapes over all contents and values. Each real accessor pair is bound to it case by case: TLC compares the observed element and getter results with SetField/GetField, and for every bit field the full function table (256 priors of its octet x values; all 256 values in thorough) through weighted sums modulo three primes folded independently by the driver and by TLC.", "7/C09"),
-    level_note="Trusted: TLC, Go reflection, the frozen annotation table (the `len = INF` fields are octet strings from row r0 whatever their sBit says). Octet-string fields and multi-octet contents are sampled by the stated patterns, not exhaustively. SetLen of Buffer-backed elements (allocator) is judged on Len/Iei only; the DNN text accessor is excluded (C12/C14).",
+    level_note="Trusted: TLC, Go reflection, the frozen annotation table (the `len = INF` fields are octet strings from row r0 whatever their sBit says). Octet-string fields and multi-octet contents are sampled by the stated patterns, not exhaustively. SetLen of Buffer-backed elements (allocator) is judged on Len/Iei only; the DNN text accessor (a label coding, not a bit field) is judged by its own specification (MiscConvert.tla, RFC 1035 labels) on generated names and buffers, not exhaustively.",
 )
 
 KNOWN_CLASS = {"low6": "second-octet-low-bits-cleared"}
+
+
+def dnn_text_accessor(c, sd):
+    for mod, cfg in (("MC_X02_dnn", "MC_X02_dnn"), ("MC_X02_dnn", "MC_X02_dnn_text"), ("MC_X02_dnn", "MC_X02_dnn_buf")):
+        c.stage_a(sd, mod, cfg, workers=2, timeout=900)
+    cases, seen = [], set()
+    for cfg in ("MC_X02_dnn_gen", "MC_X02_dnn_gentext", "MC_X02_dnn_genbuf"):
+        res = c.tlc(sd, "MC_X02_dnn", cfg, workers=2, timeout=900)
+        if not res.clean:
+            raise Infra("case generator %s failed:\n%s" % (cfg, res.out[-2000:]))
+        c.cov["states"] += res.distinct; c.cov["transitions"] += res.generated
+        for ln in res.printed:
+            if ln.startswith('"{'):
+                x = json.loads(json.loads(ln)); k = json.dumps(x, sort_keys=True)
+                if x.get("kind") in ("dnn", "dnnbuf") and k not in seen:
+                    seen.add(k); cases.append(x)
+    if len(cases) < 200:
+        raise Infra("DNN case generators printed only %d cases" % len(cases))
+    for i, x in enumerate(cases):
+        if x["kind"] == "dnn": x["preset"] = i % 2 == 1
+    drv = c.build_driver("misc")
+    cp = os.path.join(c.scratch, "dnn-cases.json"); json.dump(cases, open(cp, "w"))
+    out = os.path.join(c.scratch, "dnn.ndjson")
+    c.run_driver(drv, ["replay", cp, out])
+    evs = [x for x in read_ndjson(out) if x.startswith('{"op":"Dnn')]
+    if len(evs) < len(cases):
+        raise Infra("misc driver produced %d DNN events for %d cases" % (len(evs), len(cases)))
+    mism = c.validate("Trace_X02", evs, shards=2)
+    c.cov["dnn_text_accessor_events"] = len(evs)
+
+    def txt(a): return "".join(chr(x) if 32 <= x < 127 else "\\x%02x" % x for x in a)
+
+    def case_of(e):
+        return dict(kind="dnn", name=e["name"], preset=e["preset"]) if e["op"] == "DnnSet" else dict(kind="dnnbuf", buf=e["buf"])
+
+    def classify(idx, t):
+        e = json.loads(evs[idx])
+        what = ("SetDNN(\"%s\") -> buffer %s, GetDNN \"%s\"" % (txt(e["name"])[:100], e["buf"][:24], txt(e["get"])[:80])) if e["op"] == "DnnSet" \
+            else "GetDNN on buffer %s -> \"%s\"" % (e["buf"][:40], txt(e["get"])[:80])
+        return ("DNN." + ("SetDNN" if e["op"] == "DnnSet" else "GetDNN"), t[3], "%s (%s): %s" % (t[2], t[3], what),
+                dict(case=case_of(e), observed=e, how="harness/cmd/misc replay [case] out.ndjson; validate with spec/trace/Trace_X02"))
+
+    def confirm(idx, t):
+        p2 = os.path.join(c.scratch, "dnn-confirm.json"); json.dump([case_of(json.loads(evs[idx]))], open(p2, "w"))
+        o3 = os.path.join(c.scratch, "dnn-confirm.ndjson")
+        c.run_driver(drv, ["replay", p2, o3])
+        again = c.validate("Trace_X02", [x for x in read_ndjson(o3) if x.startswith('{"op":"Dnn')], shards=1)
+        return any(a[1][2] == t[2] and a[1][3] == t[3] for a in again)
+    mc = dict(c.cov.get("mismatch_classes", {}))
+    c.triage(mism, classify, confirm, per_class=2, total=8)
+    mc.update(c.cov.get("mismatch_classes", {})); c.cov["mismatch_classes"] = mc
 
 
 def load_table():
@@ -281,6 +332,11 @@ def run(c):
             c.note("%d digest(s) differed but no element of the expanded chunks did (not reproduced)" % len(expand))
         batch_triage(xev, xm)
     c.cov["mismatch_classes"] = {"%s/%s" % k: v for k, v in seen.items() if v > 0}
+
+    # ---- the one TEXT accessor pair: DNN.SetDNN / GetDNN (documented layout: RFC 1035 labels, TS 23.003 9.1).  Specified in
+    # spec/MiscConvert.tla (label coding, laws model-checked by MC_X02_dnn*), cases printed by TLC (names at the label-length
+    # boundaries, empty labels, short texts, buffers), executed by the misc driver, judged by Trace_X02.
+    dnn_text_accessor(c, sd)
 
     # ---- binding self-test, AFTER the verdict phase and never in its way: observations of events that validated
     # cleanly are corrupted; TLC must reject exactly those and keep accepting the untouched ones
